@@ -255,7 +255,10 @@ class HendrixSym:
             self.pb = hx.HendrixTwoProductPerishable(max_useful_life=m, max_order_quantity_a=Qa, max_order_quantity_b=Qb,
                                                      demand_poisson_mean_a=self.MEAN_A, demand_poisson_mean_b=self.MEAN_B,
                                                      substitution_probability=self.SUB)
-        self.K = self.pb.max_demand
+        # the truncation point the documentation (and the known finding of C13) names; the code's own value is compared
+        # with it by the callers, the reference below never follows the code
+        self.K = m * (max(Qa, Qb) + 2)
+        self.K_code = int(self.pb.max_demand)
         self.pz_obj = self._unwrap(self.pb.pz)
         self.pu_obj = self._unwrap(self.pb.pu)
 
@@ -318,7 +321,7 @@ class HendrixSym:
             return val_of(v).reshape(())[()], list(prices.val)
 
     def contract(self):
-        K = self.K
+        K = max(self.K, self.K_code)
         cons = [PA(k) >= 0 for k in range(K + 1)] + [PB(k) >= 0 for k in range(K + 1)]
         cons += [sum(PA(k) for k in range(K + 1)) <= 1, sum(PB(k) for k in range(K + 1)) <= 1]
         for x in range(K + 1):
